@@ -186,13 +186,16 @@ func (ex *Exec) runDeferred(fr *Frame, st *State, d deferEntry) {
 	sub := st.clone()
 	sub.reach = And(st.reach, d.cond)
 	var rets []Val
-	_ = rets
 	if b, ok := c.Value.(*ssa.Builtin); ok {
 		ex.builtinCall(fr, sub, d.call, b, c, d.args)
 	} else if c.IsInvoke() {
-		ex.invoke(fr, sub, d.call, c.Value.Type(), c.Method, d.recv.(*Agg), d.args)
+		rets = ex.invoke(fr, sub, d.call, c.Value.Type(), c.Method, d.recv.(*Agg), d.args)
+		ex.recordCapture(fr, sub, d.call, append([]Val{d.recv}, d.args...), rets, c.Signature())
 	} else if fv, ok := d.fn.(*FuncVal); ok {
-		ex.dispatch(fr, sub, d.call, fv.Fn, d.args, fv.Bindings)
+		called := sub.reach
+		rets = ex.dispatch(fr, sub, d.call, fv.Fn, d.args, fv.Bindings)
+		pre := &State{reach: called}
+		ex.recordCapture(fr, pre, d.call, d.args, rets, c.Signature())
 	} else {
 		ex.note("%s: deferred call through unknown function value havoced", fr.label)
 		ex.havocCall(sub, c.Signature())
@@ -436,7 +439,12 @@ func (ex *Exec) modularCall(fr *Frame, st *State, site ssa.Instruction, fn *ssa.
 	}
 	ex.checkRequires(fr, st, site, fn, con, args)
 	pre := st.clone()
-	ex.applyModifies(st, pre, con.Modifies, func() *SpecEnv { return ex.calleeEnv(fn, con, args, pre, pre, nil) })
+	if !con.HasMod {
+		// no frame stated (and therefore none checked): the callee may have changed anything
+		ex.preservingPrivate(st, st.heap.havocAll)
+	} else {
+		ex.applyModifies(st, pre, con.Modifies, func() *SpecEnv { return ex.calleeEnv(fn, con, args, pre, pre, nil) })
+	}
 	rets := ex.freshResults(st, fn.Signature, "r."+fn.Name()+".")
 	env := ex.calleeEnv(fn, con, args, pre, st, rets)
 	for _, cl := range con.Ensures {
@@ -719,6 +727,15 @@ func (ex *Exec) pureApply(fn *ssa.Function, con *Contract, args []Val, st *State
 	for _, t := range flat {
 		if t.hasBound {
 			hasBound = true
+		}
+	}
+	if !hasBound {
+		for _, r := range rets {
+			for _, l := range flatten(r, nil) {
+				if l.Sort == SStr {
+					ex.fact(nil, Ge(SLen(l), IntT(0)))
+				}
+			}
 		}
 	}
 	if hasBound {
@@ -1125,7 +1142,11 @@ func (ex *Exec) bindCaptures(fr *Frame, env *SpecEnv, sc *specScope, reachNow *T
 		return
 	}
 	for _, cp := range fr.con.Captures {
-		rec := fr.captures[cp.Name]
+		caps := fr.captures
+		if fr.capsOverride != nil {
+			caps = fr.capsOverride
+		}
+		rec := caps[cp.Name]
 		ci := ex.findCaptureSite(fr.fn, cp)
 		if ci == nil {
 			continue
